@@ -258,6 +258,39 @@ def PNode.definedAt : PNode V → Int → Bool
   | .scale _ _, _ => true
   | .node _, _ => true
 
+/-! ## Histories over several objects: `clone()` -/
+
+/-- one step of a history over several objects (`Parameter`, `ParameterNode`, `ParameterScale`):
+    `x.clone()` creates a new object (numbered after the existing ones), an update addresses one
+    object. `U` is whatever an update request is for the kind of object at hand. -/
+inductive HOp (U : Type) where
+  | clone (src : Nat)
+  | upd (obj : Nat) (u : U)
+deriving Repr
+
+/-- the object an operation writes to -/
+def HOp.target {U : Type} : HOp U → Option Nat
+  | .clone _ => none
+  | .upd i _ => some i
+
+/-- The objects are pure values: `clone()` (which rebuilds `values_list`, the children, the
+    brackets) is a copy; an update replaces the addressed object only. `f` applies one update
+    request to one object. Out-of-range indices leave the state as it is. -/
+def runOp {σ U : Type} (f : σ → U → σ) (st : List σ) : HOp U → List σ
+  | .clone s => match st[s]? with
+    | some x => st ++ [x]
+    | none => st
+  | .upd i u => match st[i]? with
+    | some x => st.set i (f x u)
+    | none => st
+
+def runOps {σ U : Type} (f : σ → U → σ) (st : List σ) (ops : List (HOp U)) : List σ :=
+  ops.foldl (runOp f) st
+
+/-- bookkeeping for the specification: an object's *own* sequence of updates is extended by the
+    updates addressed to it and inherited by its clones -/
+def snoc {U : Type} (us : List U) (u : U) : List U := us ++ [u]
+
 /-! ## Specification vocabulary (used by the theorems of `Props/C06.lean`) -/
 
 /-- `e` is the most recent entry of `l` on or before `d` -/
